@@ -87,7 +87,8 @@ def normalise_free(act, exp, free):
 
 
 # "@0" variants: the smallest label of the scenario is 0 / 0.0 / '' (falsy labels)
-VARIANTS = ["i", "f", "s", "mixed", "i@0", "f@0", "s@0"]
+# "mixed@big": int and float labels around 2e7 (dates written yyyymmdd): exact in float64, not in float32
+VARIANTS = ["i", "f", "s", "mixed", "i@0", "f@0", "s@0", "mixed@big"]
 
 
 def replay(scn):
@@ -95,9 +96,9 @@ def replay(scn):
     viol, calls = [], 0
     free = scn["out"]["free"]
     for variant in VARIANTS:
-        mixed = variant == "mixed"
-        codec = A.LabelCodec(mixed=mixed)
-        if variant.endswith("@0"):
+        mixed = variant.startswith("mixed")
+        codec = A.LabelCodec(mixed=mixed, offset=(40400200 if variant == "mixed@big" else 0))
+        if variant.endswith("@0") and not mixed:
             hs = [h for a in i["arrs"] for l in a["labs"] for h in l]
             if not hs:
                 continue
